@@ -1028,7 +1028,9 @@ def i_BISR(ins,fmap):
 def i_MTCR(ins,fmap):
     offset = ins.operands[0]
     src = fmap(ins.operands[1])
-    dst = CSFR[ins.operands[0].value]
+    offset = ins.operands[0].value
+    # core registers that are not modelled in env are named after their offset
+    dst = CSFR.get(offset, reg("csfr_%04x" % offset, 32))
     fmap[dst] = src
 
 def i_SYSCALL(ins,fmap):
